@@ -7,6 +7,11 @@ package main
 const fsGo = "extractor/filesystem/filesystem.go"
 
 var handleFileNeutral = []Mutant{
+	{Name: "neutral-fileapi-reset-in-helper", File: fsGo,
+		Old:  "	wc.fileAPI.currentPath = path\n	wc.fileAPI.currentStatCalled = false\n",
+		New:  "	wc.fileAPI.setPath(path)\n",
+		Old2: "func (api *lazyFileAPI) Path() string {\n",
+		New2: "func (api *lazyFileAPI) setPath(path string) {\n	api.currentPath = path\n	api.currentStatCalled = false\n}\n\nfunc (api *lazyFileAPI) Path() string {\n"},
 	{Name: "neutral-filetype-filter-merged", File: fsGo,
 		Old: "	if !d.Type().IsRegular() {\n		// Ignore the file because symlink reading is disabled.\n		if !wc.readSymlinks {\n			return nil\n		}\n		// Ignore non-symlinks.\n		if (d.Type() & fs.ModeType) != fs.ModeSymlink {\n			return nil\n		}\n	}\n",
 		New: "	if !d.Type().IsRegular() && (!wc.readSymlinks || (d.Type()&fs.ModeType) != fs.ModeSymlink) {\n		return nil\n	}\n"},
